@@ -54,17 +54,19 @@ theorem perform_eq (s : State) (t : Trans) : perform s t =
 
 theorem leaveEffects_eq (s : State) : leaveEffects s =
     { s with t3Armed := s.t3Armed && !decide (s.comm = .waitCra), delayArmed := s.delayArmed && !decide (s.comm = .waitDelay) } := by
-  obtain ⟨c, l, a, b, n, m, q⟩ := s
+  obtain ⟨c, cn, l, a, b, n, m, q⟩ := s
   cases c <;> simp [leaveEffects, smWired_leave_cra, smWired_leave_delay]
 
 @[simp] theorem sendS1F13_comm (s : State) : (sendS1F13 s).1.comm = s.comm := by
-  obtain ⟨c, l, a, b, n, m, q⟩ := s; cases l <;> rfl
-@[simp] theorem sendS1F13_link (s : State) : (sendS1F13 s).1.link = s.link := by
-  obtain ⟨c, l, a, b, n, m, q⟩ := s; cases l <;> rfl
+  obtain ⟨c, cn, l, a, b, n, m, q⟩ := s; cases cn <;> rfl
+@[simp] theorem sendS1F13_selected (s : State) : (sendS1F13 s).1.selected = s.selected := by
+  obtain ⟨c, cn, l, a, b, n, m, q⟩ := s; cases cn <;> rfl
+@[simp] theorem sendS1F13_connected (s : State) : (sendS1F13 s).1.connected = s.connected := by
+  obtain ⟨c, cn, l, a, b, n, m, q⟩ := s; cases cn <;> rfl
 @[simp] theorem sendS1F13_t3 (s : State) : (sendS1F13 s).1.t3Armed = s.t3Armed := by
-  obtain ⟨c, l, a, b, n, m, q⟩ := s; cases l <;> rfl
+  obtain ⟨c, cn, l, a, b, n, m, q⟩ := s; cases cn <;> rfl
 @[simp] theorem sendS1F13_dly (s : State) : (sendS1F13 s).1.delayArmed = s.delayArmed := by
-  obtain ⟨c, l, a, b, n, m, q⟩ := s; cases l <;> rfl
+  obtain ⟨c, cn, l, a, b, n, m, q⟩ := s; cases cn <;> rfl
 
 /-- entering a state: WAIT_CRA arms T3 and sends S1F13, WAIT_DELAY arms the delay, COMMUNICATING fires the event -/
 theorem enterEffects_eq (s : State) : enterEffects s =
@@ -73,7 +75,7 @@ theorem enterEffects_eq (s : State) : enterEffects s =
     | .waitDelay => ({ s with delayArmed := true }, [])
     | .communicating => (s, [.evtCommunicating])
     | _ => (s, []) := by
-  obtain ⟨c, l, a, b, n, m, q⟩ := s
+  obtain ⟨c, cn, l, a, b, n, m, q⟩ := s
   cases c <;> simp [enterEffects, smWired_enter_cra, smWired_enter_delay, gemWired_enter_cra, gemWired_enter_comm]
 
 end SecsModel.Proofs.GemComm
